@@ -6,7 +6,7 @@ CONSTANTS
   QTypes <- QTypesGlue
   Vals = {1, 2, 3}
   ValsOf <- MCValsOf3
-  OpFamilies = {"W", "U", "M"}
+  OpFamilies = {"W", "U", "M", "B"}
   Writers = {"w1"}
   Readers = {}
   MaxVer = 1
